@@ -163,7 +163,7 @@ func runVerify(o *runOpts) (*RunOutput, error) {
 			continue
 		}
 		out.Functions = append(out.Functions, k)
-		c = x.effectiveContract(f, c)
+		c = x.contractFor(f)
 		x.Verify(f, c)
 		out.Paths[k] = x.pathCount
 	}
@@ -334,6 +334,9 @@ func (x *Exec) effectiveContract(fn *ssa.Function, c *FuncContract) *FuncContrac
 			def = x.cs.Defaults[parts[0]+"."+parts[1]]
 		}
 	}
+	if c != nil && c.NoDefault {
+		def = nil
+	}
 	if len(fams) == 0 && def == nil {
 		return c
 	}
@@ -399,6 +402,10 @@ func (x *Exec) effectiveContract(fn *ssa.Function, c *FuncContract) *FuncContrac
 		}
 		m.Requires = append(sub(def.Requires), m.Requires...)
 		m.Ensures = append(sub(def.Ensures), m.Ensures...)
+		if m.RecDec == nil && def.RecDec != nil {
+			rd := sub([]Clause{*def.RecDec})[0]
+			m.RecDec = &rd
+		}
 		if def.HasMod && !m.HasMod {
 			m.HasMod = true
 			for _, it := range def.Modifies {
